@@ -341,6 +341,11 @@ func c07EnumNames() [][]byte {
 		out = append(out, []byte(strings.Repeat("n", n)))
 		out = append(out, []byte(strings.Repeat("../", n/3)+"x"))
 	}
+	// the 255 limit is on bytes: multi-byte names around it (runes < bytes)
+	for _, s := range []string{strings.Repeat("é", 127) + "a", strings.Repeat("é", 128), strings.Repeat("€", 85), strings.Repeat("€", 86), strings.Repeat("é", 200),
+		strings.Repeat("\xff", 255), strings.Repeat("\xff", 256), strings.Repeat("\u00e9", 127) + "ab", strings.Repeat("𝄞", 64), strings.Repeat("𝄞", 63) + "abc"} {
+		out = append(out, []byte(s))
+	}
 	for _, s := range []string{"a/../b", "a/./b", "a//b", "../../etc/passwd", "..\\..\\x", "d/../../x", "/etc/passwd", "//", "/d/f", "d/..", "..a", "a..", "...", "d/..hidden", "a\x00/../b"} {
 		out = append(out, []byte(s))
 	}
@@ -381,6 +386,10 @@ func genC07(t *rapid.T) c07Case {
 			rq.Name = rapid.SliceOfN(rapid.SampledFrom(c07Alphabet), 0, 12).Draw(t, "alpha")
 		case 1:
 			rq.Name = rapid.SliceOfN(rapid.Byte(), 0, 300).Draw(t, "rnd")
+			if rapid.IntRange(0, 3).Draw(t, "multibyte") == 0 {
+				unit := pick(t, "unit", "é", "€", "𝄞", "a")
+				rq.Name = []byte(strings.Repeat(unit, rapid.IntRange(60, 260).Draw(t, "reps")) + pick(t, "tail", "", "a", "ab", "abc"))
+			}
 		case 2:
 			parts := rapid.SliceOfN(rapid.SampledFrom([]string{"..", ".", "a", "d", "f", "", "etc", "..a", "\\", "ok", "up"}), 1, 6).Draw(t, "parts")
 			rq.Name = []byte(strings.Join(parts, "/"))
